@@ -82,6 +82,19 @@ func ceremony(ctx context.Context, c *kernel.Ctx, cer int, net *simnet.Net) {
 	if c.Mode == "frost" {
 		algo = "frost"
 	}
+	// A deviating dealer (FROST, a fifth of the ceremonies with t < n): one member runs the same
+	// steps but deals polynomials of another degree than the cluster threshold (its round 1 casts
+	// carry t+1, t+2 or t-1 commitments). The ceremony may be refused; if it completes, the result
+	// must still be a proper t-of-n key.
+	deviant, devT := -1, 0
+	if algo == "frost" && t < n && verifrt.Intn("cfg", 5) == 4 {
+		deviant = verifrt.Intn("cfg", n)
+		devT = []int{t + 1, t + 1, t + 2, t - 1}[verifrt.Intn("cfg", 4)]
+		if devT < 1 || devT > n {
+			devT = t + 1
+		}
+		verifrt.Fault("deviating-dealer")
+	}
 	maxDelay := 1 + verifrt.Intn("cfg", 200)
 	dupPct := []int{0, 10}[verifrt.Intn("cfg", 2)]
 	c.Set(fmt.Sprintf("ceremony%d", cer), fmt.Sprintf("%s n=%d t=%d validators=%d maxDelayMs=%d dup%%=%d", algo, n, t, vals, maxDelay, dupPct))
@@ -155,7 +168,11 @@ func ceremony(ctx context.Context, c *kernel.Ctx, cer int, net *simnet.Net) {
 			if algo == "pedersen" {
 				results[me], errs[me] = pedersen.RunDKG(cctx, nodes[me].pcfg, nodes[me].board, vals)
 			} else {
-				results[me], errs[me] = dkg.VerifRunFrost(cctx, nodes[me].tp, vals, n, t, me+1, "dkg-ctx")
+				myT := t
+				if me == deviant {
+					myT = devT
+				}
+				results[me], errs[me] = dkg.VerifRunFrost(cctx, nodes[me].tp, vals, n, myT, me+1, "dkg-ctx")
 			}
 			verifrt.Note("node %d done err=%v", me, errs[me] != nil)
 		})
@@ -163,6 +180,10 @@ func ceremony(ctx context.Context, c *kernel.Ctx, cer int, net *simnet.Net) {
 	verifrt.WGWait(&wg)
 	for i, err := range errs {
 		if err != nil {
+			if deviant >= 0 {
+				verifrt.Probe("ceremony-refused-with-deviating-dealer")
+				return
+			}
 			if stragglers > 0 {
 				// messages of an earlier ceremony reached this one: refusing to complete is a legitimate
 				// outcome (the statement is about successful ceremonies); only a ceremony that nothing
@@ -175,6 +196,9 @@ func ceremony(ctx context.Context, c *kernel.Ctx, cer int, net *simnet.Net) {
 		}
 	}
 	c.Progress()
+	if deviant >= 0 {
+		verifrt.Probe("ceremony-completed-with-deviating-dealer")
+	}
 	checkShares(c, n, t, vals, results)
 }
 
